@@ -169,8 +169,11 @@ P('C12', claimed=True, level='proof',
               'opaque trace events, bi.mod/bi.roundup inlined from builtins.py. Trusted: z3.'),
   technique='contract-based deductive verification: class invariants + two-call lemma functions over the real method bodies, z3')
 
-P('C13', claimed=True, level='exploration', drivers=['vf.drivers.C13'],
-  level_text=('Every __embed__ is a generator with yield from (outside the provable subset): decided by '
+P('C13', claimed=True, level='other', contracts=['seq_valuepatterns'], drivers=['vf.drivers.C13'],
+  level_text=('The series generators Pseries/Pgeom are under contract with `yield` as a ghost trace event '
+              '(per-pass inductive step of the denotation: first value = start, each pass draws the step '
+              'once, yields the current value, next = current (+|*) step, quiet end on exhaustion). Every '
+              'other __embed__ delegates with yield from (outside the provable subset): decided by '
               'run-time contracts. All pattern expressions of depth <= 2 over 27 constructors and ~100k '
               'seeded random deeper ones are streamed and compared with an independent compositional '
               'list semantics; immutability and seeded determinism/support of random patterns are '
